@@ -132,6 +132,9 @@ fn main() {
       if f.prop == pname {
         let witness = json!({"scenario": o.scn.describe(), "detail": f.detail, "history": history_json(&o.evs, 800),
           "loads": o.loads.iter().map(|l| format!("{:?}", l)).collect::<Vec<_>>()});
+        if !sigs_seen.contains(&sig) {
+          res.count(&format!("first_seen_ms/{}", sig.replace('/', "|")), (args.elapsed_s() * 1000.0) as u64 + 1);
+        }
         if sigs_seen.insert(sig.clone()) || res.violations.len() < 40 {
           res.violation(&sig, &f.summary, &args.replay_dir, &witness);
         } else {
